@@ -13,6 +13,7 @@
 #include "common.hpp"
 
 #include <chrono>
+#include <compare>
 #include <cstdint>
 #include <cstring>
 #include <utility>
@@ -409,6 +410,8 @@ struct UOps {
 
 // ---- tables that need no per-instantiation entry (part 0 only) --------------------------------------------------------
 #if C12_PART == 0
+template <typename A, typename B>
+concept c12_three_way = requires(A a, B b) { a <=> b; };
 constexpr i64 IMAX = std::numeric_limits<i64>::max();
 template <typename E, typename S>
 static void conv_row(Out& impl, Out& ref)
@@ -666,8 +669,21 @@ bool vh::run_case(std::string const& op, Toks& in, Out& impl, Out& ref)
 #endif
 }
 
-static bool run_case_inner(std::string const& op, Toks& in, Out& impl, Out& ref)
+static bool run_case_inner(std::string const& op0, Toks& in, Out& impl, Out& ref)
 {
+    // "uub_<op>": an input on which the code has undefined behaviour (signed overflow in int / long after promotion,
+    // division by zero).  Only the variant built with -DC12_UBSAN (UBSan in trap mode, forking supervisor: a trap is
+    // reported as "crash 4") executes it, as "u_<op>".
+    std::string opname = op0;
+    if (opname.rfind("uub_", 0) == 0) {
+#ifdef C12_UBSAN
+        opname = "u_" + opname.substr(4);
+#else
+        impl.tok("skip");
+        return true;
+#endif
+    }
+    std::string const& op = opname;
     if (op.rfind("u_", 0) != 0) {
         impl.tok("skip");
         return true;
@@ -680,6 +696,14 @@ static bool run_case_inner(std::string const& op, Toks& in, Out& impl, Out& ref)
     if (op == "u_pqovf") { pqovf_rows(impl); return true; }
     if (op == "u_ctor") { ctor_rows(impl, ref); return true; }
     if (op == "u_lcmwrap") { lcmwrap_rows(impl); return true; }
+    if (op == "u_spaceship") {
+        // [time.duration.comparisons], [time.point.comparisons] (C++20): operator<=> on two durations / time_points
+        using ETS = ec::time_point<ec::system_clock, ec::seconds>;
+        using STS = sc::time_point<sc::system_clock, sc::seconds>;
+        impl.tok("ok").b(c12_three_way<ec::seconds, ec::milliseconds>).b(c12_three_way<ETS, ETS>);
+        ref.tok("ok").b(c12_three_way<sc::seconds, sc::milliseconds>).b(c12_three_way<STS, STS>);
+        return true;
+    }
     if (op == "u_fl") {
         // float / long double representations on four period pairs (i, j index the period table)
         if (i == 0 && j == 1) { fl_rows<0, 1>(in, impl, ref); return true; }
